@@ -252,7 +252,11 @@ func propC16(c *Ctx) {
 	addTrace := l.Method(modPath, "RuntimeError", "addTrace")
 	if c.Anchor(rr, "VM.throw / RuntimeError.addTrace", throw != nil && addTrace != nil) {
 		inLoop, atEntry := false, false
-		eachInstr(throw, func(ins ssa.Instruction) {
+		// throw and the helpers split out of it (the frame walk may live in a helper)
+		eachInstrDeep(throw, 2, func(ins ssa.Instruction) {
+			if host := ins.Parent(); host != throw && (host == addTrace || funcPkgPath(host) != modPath || host.Signature.Recv() == nil || !isNamed(host.Signature.Recv().Type(), modPath, "VM")) {
+				return
+			}
 			ci, ok := ins.(ssa.CallInstruction)
 			if !ok || ci.Common().StaticCallee() != addTrace {
 				return
